@@ -49,7 +49,8 @@ class ManualExecutor(Executor):
 
         def work():
             E.vsleep(d)
-            if fut._state == "PENDING":
+            if fut._state in ("PENDING", "CANCELLED"):
+                # what every executor's worker does with a work item: start it, or acknowledge its cancellation
                 if not fut.set_running_or_notify_cancel():
                     return
             elif fut.cancelled():
@@ -65,6 +66,17 @@ class ManualExecutor(Executor):
                 fut.set_result(v)
                 E.emit("DelegateDone", f=sub, a=0)
 
+        if not d:
+            # no worker will ever look at this item: acknowledge a cancellation at once (as a draining queue would)
+            inner_cancel = fut.cancel
+
+            def cancel_and_ack():
+                r = inner_cancel()
+                if r and fut._state == "CANCELLED":
+                    fut.set_running_or_notify_cancel()
+                return r
+
+            fut.cancel = cancel_and_ack
         if d:
             name = "env%d" % sub if len(self.futs[sub]) == 1 else "env%d_%d" % (sub, len(self.futs[sub]))
             E.spawn(name, work)
